@@ -3,6 +3,7 @@ package frugal
 // C17: the controls retained from the JIT era have no effect on any result.
 
 import (
+	"reflect"
 	"unsafe"
 
 	"github.com/cloudwego/frugal/debug"
@@ -21,10 +22,16 @@ func legacyCall(i int, x int) {
 	case 3:
 		_ = debug.GetStats()
 	case 4:
-		args := []interface{}{nil, 7, new(Leaf), Leaf{}, new(IvUint), new(IvPtrPtr), []int{1}, "s", new(DpRec)}
+		args := []interface{}{nil, 7, new(Leaf), Leaf{}, new(IvUint), new(IvPtrPtr), []int{1}, "s", new(DpRec),
+			new(IvOuterP), IvOuterL{}, new(IvDeepP), new(IvDeepL), new(IvCycA), new(IvCycPB),
+			reflect.TypeOf(IvDeepM{}), reflect.TypeOf(new(IvOuterM)), reflect.TypeOf(Leaf{})}
 		for _, a := range args {
 			vrt.Check(Pretouch(a) == nil, "C17 Pretouch accepts any type and never fails")
 			vrt.Check(Pretouch(a, WithMaxInlineDepth(x), WithMaxInlineILSize(x), WithMaxPretouchDepth(x)) == nil, "C17 Pretouch with options never fails")
+		}
+		// ... and changes nothing: definitions that are rejected stay rejected, whatever was "pre-touched"
+		for _, p := range []interface{}{new(IvOuterP), new(IvOuterL), new(IvDeepP), new(IvDeepL), new(IvDeepM), new(IvOuterM), new(IvCycA), new(IvCycB), new(IvCycPB)} {
+			ivRejected(p, nil, "after Pretouch")
 		}
 	case 5:
 		o := &opts.Options{}
